@@ -7,6 +7,9 @@ an interface. The lines written on stdout are then
   (1) folded into "what is announced after step t" and compared with trace predicates on the scripted results, and
   (2) handed to the daemon side (`API.process` -> dispatch_v6 -> v6_announce/v6_withdraw -> announce_route/withdraw_route ->
       `API.api_route`) with a recording reactor, and the parsed Route is compared with the configured values for that state.
+
+Sensitivity runs: with VERIF_C20_NO_SEVERAL=1 in the environment no case has several --neighbor values (that selector is refused
+by the daemon on the unchanged tree, which would make every mutant look caught).
 """
 
 from __future__ import annotations
@@ -853,4 +856,4 @@ def check(case: dict) -> dict:
     return {'nontrivial': nontrivial, 'classes': classes, 'sample': sample}
 
 
-ENGINES = [Engine('runs', cases, check, quick=500, thorough=30000, batch=250)]
+ENGINES = [Engine('runs', cases, check, quick=1000, thorough=30000, batch=200)]
